@@ -62,6 +62,8 @@ def mc_configs(pid, tier):
         # TCP probes answered by the receiving host itself (ReplySend)
         cfgs.append(("mc_part_probe", base_consts(GMax=1, CtlOps=set(PART_OPS), HostCtlOps=set(), Kinds={"probe"},
                                                   FailModes={True}, MaxMsgs=4, MaxSteps=4, MaxCtl=2)))
+        cfgs.append(("mc_part_probe_host", base_consts(GMax=1, CtlOps=set(PART_OPS), HostCtlOps={"partition_oneway", "repair"}, Kinds={"probe"},
+                                                       FailModes={False}, MaxMsgs=4, MaxSteps=3, MaxCtl=2)))
         if not q:
             cfgs.append(("mc_part_probe_dgram", base_consts(GMax=2, CtlOps=set(PART_OPS), HostCtlOps=set(), Kinds={"dgram", "probe"},
                                                             FailModes={False}, MaxMsgs=4, MaxSteps=4, MaxCtl=2)))
@@ -77,6 +79,8 @@ def mc_configs(pid, tier):
                                                    MaxMsgs=2, MaxSteps=4 if not q else 3, MaxCtl=3)))
         cfgs.append(("mc_hold_probe", base_consts(GMax=1, CtlOps=set(HOLD_OPS), HostCtlOps=set(), AllowManual=True, Kinds={"probe"},
                                                   MaxMsgs=4, MaxSteps=4, MaxCtl=3)))
+        cfgs.append(("mc_hold_probe_host", base_consts(GMax=1, CtlOps=set(HOLD_OPS), HostCtlOps=set(HOLD_OPS), AllowManual=False, Kinds={"probe"},
+                                                       MaxMsgs=4, MaxSteps=3, MaxCtl=2)))
         if not q:
             cfgs.append(("mc_hold_probe_dgram", base_consts(GMax=1, CtlOps=set(HOLD_OPS), HostCtlOps=set(), AllowManual=True,
                                                             Kinds={"dgram", "probe"}, MaxMsgs=4, MaxSteps=4, MaxCtl=3)))
@@ -166,7 +170,7 @@ def random_configs(pid, tier, seed):
         base += [dict(n=3, tick=5, gmin=2, gmax=4), dict(n=4, tick=1, gmin=0, gmax=9), dict(n=2, tick=2, gmin=3, gmax=3)]
     cfgs = [dict(c, runs=runs, seed=seed * 101 + i, mode=MODE[pid]) for i, c in enumerate(base)]
     # the same scenarios with TCP probes mixed in: a probe is refused by the receiving host, which answers
-    # with an RST from inside Link::deliver_messages (ReplySend); control calls from the Sim handle only
+    # with an RST from inside Link::deliver_messages (ReplySend)
     tcp = [dict(n=3, tick=2, gmin=0, gmax=5), dict(n=2, tick=1, gmin=1, gmax=3, reg="2,1")]
     if not q:
         tcp += [dict(n=4, tick=3, gmin=0, gmax=7, reg="3,1,4,2"), dict(n=3, tick=1, gmin=2, gmax=6)]
